@@ -895,7 +895,7 @@ def g_cat_data(rng, shape):
             ds.sort()
         cats = [[(["d"] + list(d)) if rng.random() < 0.7 else (["t"] + list(d) + [rng.randint(0, 23), rng.randint(0, 59), rng.randint(0, 59)]), []] for d in ds]
         if rng.random() < 0.5:
-            fmt = rng.choice(FMTS)
+            fmt = rng.choice([x for x in FMTS if '"' not in x])
     nleaf = count_leaves(cats)
     nser = shape.get("nser", rng.randint(1, 4))
     sers = []
@@ -939,7 +939,8 @@ def cat_shapes(tier, ti, pie):
         ("numeric", {"cats": "num"}),
         ("dates", {"cats": "date"}),
         ("big", big),
-        ("random", {}),
+        ("random", {}), ("random", {}), ("random", {}), ("random", {"cats": "multi"}), ("random", {"cats": "date"}),
+        ("random", {"cats": "num"}), ("random", {"p_none": 0.4}),
     ]
     if pie:
         shapes = [(n, dict(s, nser=1)) for n, s in shapes if n != "no-series"]
@@ -1021,6 +1022,9 @@ def gen_cases(tier, rng, types):
         d["cats"][k % 3][0] = ["s", ["a\rb", "a\r\nb", "\r"][k % 3]]
         d["sers"][0][0] = "n\rm"
         cases.append({"class": "carriage-return", "init": ["W", ct, d], "ops": []})
+        d = g_cat_data(rng, {"nser": 1, "cats": "date"})
+        d["fmt"] = ['"$"0', 'd" days"', 'yy"-"mm'][k % 3]
+        cases.append({"class": "date-format-with-quote", "init": ["W", ct, d], "ops": []})
         # 1904 date system
         d = g_cat_data(rng, {"nser": 2, "cats": "date"})
         cases.append({"class": "date1904", "init": ["G", ct, d], "ops": [g_cat_data(rng, {"cats": "date", "nser": rng.randint(1, 3)}), g_cat_data(rng, {"cats": "date"})]})
@@ -1054,7 +1058,7 @@ def gen_cases(tier, rng, types):
             xcs = xcharts(etree.fromstring(ch.part.blob))
             first = localname(xcs[0]) if xcs else None
             fam = {"bubbleChart": "bub", "scatterChart": "xy"}.get(first, "cat")
-            reps = 1 if tier == "quick" else 4
+            reps = 2 if tier == "quick" else 6
             for _ in range(reps):
                 cases.append({"class": "corpus/%s" % first, "init": ["S", f, i], "ops": g_ops(rng, fam, rng.choice([1, 2, 3]), False)})
     return cases
@@ -1068,6 +1072,24 @@ def nontrivial(case):
         if x["sers"] and any(len(s[2]) > 0 for s in x["sers"]) and (x["k"] != "cat" or x["cats"]):
             ok = True
     return ok
+
+
+def foreign_levels_witness(deck):
+    """Replay of C07_foreign_levels_refuted: a two-level chart whose first parent category
+    has no c:pt (what PowerPoint writes for a blank parent cell).  -> (impl, model)"""
+    from pptx.enum.chart import XL_CHART_TYPE
+
+    d = {"k": "cat", "nf": "General", "fmt": None,
+         "cats": [[["s", "A"], [[["s", "a0"], []]]], [["s", "P"], [[["s", "a1"], []]]]], "sers": [["s", None, [1, 2]]]}
+    chart = deck.chart(int(XL_CHART_TYPE.COLUMN_CLUSTERED), build_chart_data(d))
+    lvls = chart._chartSpace.xpath("//c:ser[1]/c:cat//c:lvl")
+    first_parent = lvls[1].findall(C + "pt")[0]
+    lvls[1].remove(first_parent)
+    impl = [list(t) for t in chart.plots[0].categories.flattened_labels]
+    toks = ["flat", 2, 2, 0, "a0", 1, "a1", 1, 1, "P"]
+    line = run_model("C07", [toks])[0]
+    model = [[S(x) for x in t] for t in json.loads(line)]
+    return impl, model
 
 
 # ------------------------------------------------------------------ main
@@ -1161,11 +1183,21 @@ def run(ck, tier, rng):
                 diffs, len(cases), first_bad[0]["class"], first_bad[1][:300]),
                 {"theorem_or_correspondence": "correspondence ChartData.v ~ chart/xmlwriter.py, data.py, category.py, series.py, oxml/chart (theorems C07_* are about the model only)",
                  "input": first_bad[0], "diff": first_bad[1]}, concrete=False)
+    witness = None
+    if ck.build.ok:
+        wi, wm = foreign_levels_witness(deck)
+        witness = {"levels": "leaf [(0,a0),(1,a1)], parent [(1,P)]", "impl_flattened_labels": wi, "model": wm,
+                   "remark": "leaf a0 lies before the first parent category and is attributed to it (reader quirk on levels python-pptx does not write; outside the property)"}
+        if wi != wm:
+            diffs += 1
+            ck.violation("correspondence", "flattened_labels on foreign levels: model %r, implementation %r" % (wm, wi),
+                         {"theorem_or_correspondence": "C07_foreign_levels_refuted replay", "model_outcome": wm, "impl_outcome": wi}, concrete=False)
     ck.broken_build(oracle_found_concrete=len(ck.violations) > 0)
     return ck.finish(
         rule="%d writable chart types (from ChartXmlWriter) x data shapes (tiny, typical, holes, unequal lengths, no series, empty series, 2 and 3-4 level ragged categories, numeric, dates around 1900-02-28/03-01, up to 50 series / 300 points, random) each followed by 0-3 replace_data with data of another shape; named situations (no series, all series removed, pie with several series, empty label, carriage return, 1904 date system); a malformed stream (unknown type, wrong data family, non-uniform depth, pie without series); every chart of the .pptx corpus with 1-3 replace_data.  non-trivial = some chart data of the case has a series with at least one point (and at least one category for category data)" % len(types),
         trusted_base=TB, assumptions=ASSUME,
-        extra={"correspondence_diffs": diffs, "chart_types": [t[1] for t in types], "exhaustive": False},
+        extra={"correspondence_diffs": diffs, "chart_types": [t[1] for t in types], "exhaustive": False,
+               "successors_live": succs, "foreign_levels_witness": witness},
     )
 
 
